@@ -319,9 +319,11 @@ func c01Lookup(c *core.Ctx, r *core.Report, l *lifecycleRoles) {
 		r.Check(ok && n > 0, "C01.R8", "lookup-by-name"+cons, c.FnPos(byName), "GetComponentByName returns .Raw of the cache accessor's result for the requested name")
 		if all := c.DeclaredMethod(T, "GetComponents"); all != nil {
 			viaByName := false
-			for _, ci := range core.Calls(all) {
-				if core.IsCallTo(ci.Common(), byName) || core.IsCallTo(ci.Common(), l.accessor) {
-					viaByName = true
+			for _, g := range core.WithAnon(all) { // also inside a callback handed to a collecting helper
+				for _, ci := range core.Calls(g) {
+					if core.IsCallTo(ci.Common(), byName) || core.IsCallTo(ci.Common(), l.accessor) {
+						viaByName = true
+					}
 				}
 			}
 			r.Check(viaByName, "C01.R8", "lookup-all@"+core.FnName(all), c.FnPos(all), "GetComponents resolves every element through the by-name lookup")
